@@ -307,6 +307,12 @@ COMPONENTS = [
               classes=classes, shards={'quick': 4, 'thorough': 4}, exhaustive=True,
               describe='one wire frame per method class with all 19 tags in every '
                        'table argument; two content headers; body; heartbeat; protocol'),
+    Component('dictionary', check_frame,
+              cases=lambda tier, shard, nshards: wire.dictionary_frames()[shard::nshards],
+              nontrivial=lambda c: True, classes=lambda c: ['kind=' + c['kind']],
+              describe='every identifier-like literal harvested from the tree under test '
+                       'as a table key next to a value of every type tag, and as a '
+                       'short-string value (auto-dictionary)'),
     Component('chains', check_any, cases=chain_sweep,
               nontrivial=lambda c: True, exhaustive=True,
               classes=lambda c: ['where=' + c.get('kind', 'value')],
